@@ -242,10 +242,17 @@ class Elf(BinFormat):
             size = S.p_filesz + ELF_PAGEOFFSET(S.p_vaddr)
             off  = S.p_offset - ELF_PAGEOFFSET(S.p_vaddr)
             addr = ELF_PAGESTART(S.p_vaddr)
-            size = ELF_PAGEALIGN(size)
+            head = b""
+            if off < 0:
+                # the file does not extend that far below the segment
+                head = b"\x00" * (-off)
+                off = 0
             self.__file.seek(off)
             base = addr
-            bytes_ = self.__file.read(size)
+            bytes_ = head + self.__file.read(size - len(head))
+            # bytes beyond the file-backed part (bss) are zero, up to the page boundary:
+            size = max(S.p_filesz, S.p_memsz) + ELF_PAGEOFFSET(S.p_vaddr)
+            bytes_ = bytes_.ljust(ELF_PAGEALIGN(size), b"\x00")
             return {base: bytes_}
         else:
             logger.error("segment not a PT_LOAD [%08x/%0d]" % (S.p_vaddr, S.p_align))
